@@ -414,6 +414,14 @@ inductive Op where
   | greset (k : Option Nat)       -- the global export policy is replaced, soft reset OUT
   | deliver (n : Nat)
   | flush
+  | rtceor                        -- the neighbour's RTC End-of-RIB arrives (RTC sessions only)
+  deriving DecidableEq, Repr, Inhabited
+
+/-- what a neighbour that negotiated RTC (RFC 4684) announced as its route-target interests before
+    its RTC End-of-RIB: a wildcard, or a set of route targets (8 bytes each) -/
+inductive RtcInterest where
+  | all
+  | rts (l : List (List Nat))
   deriving DecidableEq, Repr, Inhabited
 
 structure Case01 where
@@ -426,6 +434,7 @@ structure Case01 where
   asets : List Attrs
   pols : List (Option Policy)
   imp : Option Nat := none         -- import policy: reject routes whose ORIGIN is this value
+  rtc : Option RtcInterest := none -- the neighbour negotiated RTC and a VPN family next to the others
   pre : List Op
   ops : List Op
   deriving Repr, Inhabited
@@ -543,6 +552,7 @@ def World.step (c : Case01) (w : World) (op : Op) : World :=
   | .deliver n =>
       let (q, st) := deliverN w.rib w.llgrSrcs n w.queue w.st
       { w with queue := q, st := st }
+  | .rtceor => w
   | .flush =>
       let st := w.st.flush
       { w with st := st, flushes := w.flushes ++ [st.mirror],
@@ -561,7 +571,7 @@ structure Obs01 where
 
 def initRib (n : Nat) : Rib := (List.range n).map (fun i => { idx := i })
 
-def run01 (c : Case01) : Obs01 :=
+def run01Plain (c : Case01) : Obs01 :=
   let (rib0, aid0) := c.pre.foldl (fun (acc : Rib × Nat) op =>
       let (r, _, a) := ribOp c acc.1 acc.2 [] [] op
       (r, a)) (initRib c.shards, 1)
@@ -570,5 +580,184 @@ def run01 (c : Case01) : Obs01 :=
   let w2 := World.step c w1 (.deliver w1.queue.length)
   let st := w2.st.flush
   ⟨st.reuse, st.overtaken, w2.flushes, w2.quiet, st.mirror, freshDump st.sess w2.rib⟩
+
+/-! ## Sessions that negotiated RTC (RFC 4684) next to a VPN family and other families
+
+    `RtcState`: AwaitingEor from establishment until the neighbour's RTC End-of-RIB, then Active.
+    While AwaitingEor the VPN families are suspended: left out of the initial dump
+    (`on_established`), their changes dropped (`handle_prefix_update`); the other families are not
+    concerned.  The End-of-RIB makes the session re-walk the suspended families
+    (`RouteRefreshFamilies` -> `do_route_refresh`), from then on under the route-target filter built
+    from the neighbour's RTC routes.  VPN prefixes are the `Net`s from `VPN_BASE` up. -/
+
+def VPN_BASE : Nat := 2 ^ 127
+def isVpnNet (n : Net) : Bool := n.1 ≥ VPN_BASE
+
+def chunks8 : List Nat → List (List Nat)
+  | a :: b :: c :: d :: e :: f :: g :: h :: rest => [a, b, c, d, e, f, g, h] :: chunks8 rest
+  | _ => []
+
+/-- `RtcFilter::allows` -/
+def rtAllows (i : RtcInterest) (as : Attrs) : Bool :=
+  match i with
+  | .all => true
+  | .rts l => as.any (fun a => match a with
+      | .bin 16 bs => (chunks8 bs).any (fun rt => l.contains rt)
+      | _ => false)
+
+inductive RtcPhase where
+  | awaiting | active
+  deriving DecidableEq, Repr, Inhabited
+
+inductive EvR where
+  | change (c : Change Net)
+  | softReset
+  | rtcExport          -- `RouteRefreshFamilies(suspended VPN families)`
+  deriving Repr
+
+def EvR.isChange : EvR → Bool
+  | .change _ => true
+  | _ => false
+
+/-- the RIB without its VPN destinations -/
+def hideVpn (rib : Rib) : Rib := rib.map (fun s => { s with dests := s.dests.filter (fun d => !isVpnNet d.net) })
+/-- the VPN destinations only -/
+def onlyVpn (rib : Rib) : Rib := rib.map (fun s => { s with dests := s.dests.filter (fun d => isVpnNet d.net) })
+
+/-- the export behaviour of `do_route_refresh` on a VPN family of an Active session: the filter
+    rejects a path as an export policy would -/
+def expRt (e : Exp) (i : RtcInterest) : Exp :=
+  { e with xform := fun p => if rtAllows i p.attrs then e.xform p else none }
+
+def SessState.handleWith (st : SessState) (e : Exp) (c : Change Net) (resend : Bool) : SessState :=
+  let (m, ops) := processNlriChange e c st.map resend
+  { st with map := m, pending := applyOps st.pending ops }
+
+def collectAll (sess : Sess) (rib : Rib) : List (Change Net) :=
+  rib.flatMap (fun s => s.collect (collectLimit sess.max))
+
+/-- `do_route_refresh` for every family (`SoftResetOut`): the VPN families under the filter when the
+    session is Active; while it is AwaitingEor they stay suspended -/
+def SessState.refreshR (st : SessState) (rib : Rib) (phase : RtcPhase) (i : RtcInterest) : SessState :=
+  let st1 := (collectAll st.sess (hideVpn rib)).foldl (fun st c => st.handle c true) st
+  let st2 := match phase with
+    | .active => (collectAll st.sess (onlyVpn rib)).foldl
+        (fun (st : SessState) c => st.handleWith (expRt st.sess.exp i) c true) st1
+    | .awaiting => st1
+  { st2 with pending := { st2.pending with pendingEor := true } }
+
+/-- `do_route_refresh` for the VPN families only (`RouteRefreshFamilies`, sent at the RTC End-of-RIB) -/
+def SessState.rtcExport (st : SessState) (rib : Rib) (i : RtcInterest) : SessState :=
+  let st2 := (collectAll st.sess (onlyVpn rib)).foldl (fun st c => st.handleWith (expRt st.sess.exp i) c true) st
+  { st2 with pending := { st2.pending with pendingEor := true } }
+
+def SessState.deliverR (st : SessState) (rib : Rib) (behind : List EvR) (llgr : List Nat)
+    (phase : RtcPhase) (i : RtcInterest) : EvR → SessState
+  | .change c0 =>
+      let c := withFlags llgr c0
+      let reused := match st.owner.find? (·.1 = c.destId) with
+        | some (_, n) => n != c.net
+        | none => false
+      let st1 := { st with owner := (c.destId, c.net) :: st.owner.filter (·.1 ≠ c.destId),
+                           reuse := if reused then st.reuse + 1 else st.reuse }
+      -- `handle_prefix_update`: the RTC gate concerns VPN families only; an Active session applies
+      -- the route-target filter per path inside `process_nlri_change`, as a refresh does
+      if isVpnNet c.net then
+        match phase with
+        | .awaiting => st1
+        | .active => st1.handleWith (expRt st1.sess.exp i) c false
+      else st1.handle c
+  | .softReset =>
+      let st1 := if behind.any EvR.isChange then { st with overtaken := st.overtaken + 1 } else st
+      st1.refreshR rib phase i
+  | .rtcExport =>
+      let st1 := if behind.any EvR.isChange then { st with overtaken := st.overtaken + 1 } else st
+      st1.rtcExport rib i
+
+def deliverNR (rib : Rib) (llgr : List Nat) (phase : RtcPhase) (i : RtcInterest) :
+    Nat → List EvR → SessState → List EvR × SessState
+  | 0, q, st => (q, st)
+  | _ + 1, [], st => ([], st)
+  | n + 1, e :: q, st => deliverNR rib llgr phase i n q (st.deliverR rib q llgr phase i e)
+
+/-- what a brand-new session in the same RTC phase is sent: the other families at once, the VPN
+    families after its RTC End-of-RIB, filtered -/
+def freshDumpR (sess : Sess) (rib : Rib) (phase : RtcPhase) (i : RtcInterest) : Mirror :=
+  let st0 := establish sess (hideVpn rib)
+  match phase with
+  | .awaiting => st0.flush.mirror
+  | .active => (st0.rtcExport rib i).flush.mirror
+
+structure WorldR where
+  rib : Rib
+  llgrSrcs : List Nat := []
+  nht : List Addr := []
+  queue : List EvR := []
+  st : SessState
+  nextAttrId : Nat := 1
+  flushes : List Mirror := []
+  ppol : Option Policy := none
+  gpol : Option Policy := none
+  quiet : List Quiet := []
+  phase : RtcPhase := .awaiting
+  deriving Repr
+
+def WorldR.step (c : Case01) (i : RtcInterest) (w : WorldR) (op : Op) : WorldR :=
+  match op with
+  | .ann .. | .wd .. | .down .. | .llgr .. | .nh .. =>
+      let (rib, cs, aid) := ribOp c w.rib w.nextAttrId w.llgrSrcs w.nht op
+      let nht := match op with
+        | .nh a up => if up then w.nht.filter (· ≠ Addr.v4 a) else (Addr.v4 a) :: w.nht.filter (· ≠ Addr.v4 a)
+        | _ => w.nht
+      let marked := match op with
+        | .llgr s =>
+            let addr := (c.srcs[s]?).map (·.addr)
+            let hit := (w.rib.flatMap (·.dests)).flatMap (fun d =>
+              (d.entries.filter (fun e => some e.path.src.addr = addr)).map (·.srcIdx))
+            w.llgrSrcs ++ hit.filter (fun i => !w.llgrSrcs.contains i)
+        | _ => w.llgrSrcs
+      { w with rib := rib, queue := w.queue ++ cs.map EvR.change, nextAttrId := aid, llgrSrcs := marked, nht := nht }
+  | .reset k =>
+      let pol : Option Policy := match k with
+        | none => none
+        | some j => (c.pols[j]?).getD none
+      { w with st := { w.st with sess := { w.st.sess with policy := pol.or w.gpol } }, ppol := pol,
+               queue := w.queue ++ [EvR.softReset] }
+  | .greset k =>
+      let pol : Option Policy := match k with
+        | none => none
+        | some j => (c.pols[j]?).getD none
+      { w with st := { w.st with sess := { w.st.sess with policy := w.ppol.or pol } }, gpol := pol,
+               queue := w.queue ++ [EvR.softReset] }
+  | .rtceor =>
+      -- `RtcState::process(EorReceived)`: only the first End-of-RIB does something
+      match w.phase with
+      | .awaiting => { w with phase := .active, queue := w.queue ++ [EvR.rtcExport] }
+      | .active => w
+  | .deliver n =>
+      let (q, st) := deliverNR w.rib w.llgrSrcs w.phase i n w.queue w.st
+      { w with queue := q, st := st }
+  | .flush =>
+      let st := w.st.flush
+      { w with st := st, flushes := w.flushes ++ [st.mirror],
+               quiet := if w.queue.isEmpty then
+                   w.quiet ++ [⟨w.flushes.length, st.reuse, st.overtaken, st.mirror, freshDumpR st.sess w.rib w.phase i⟩]
+                 else w.quiet }
+
+def run01R (c : Case01) (i : RtcInterest) : Obs01 :=
+  let (rib0, aid0) := c.pre.foldl (fun (acc : Rib × Nat) op =>
+      let (r, _, a) := ribOp c acc.1 acc.2 [] [] op
+      (r, a)) (initRib c.shards, 1)
+  let w0 : WorldR := { rib := rib0, st := establish c.sess (hideVpn rib0), nextAttrId := aid0,
+                       ppol := c.ppol0, gpol := c.gpol0 }
+  let w1 := c.ops.foldl (WorldR.step c i) w0
+  let w2 := WorldR.step c i w1 (.deliver w1.queue.length)
+  let st := w2.st.flush
+  ⟨st.reuse, st.overtaken, w2.flushes, w2.quiet, st.mirror, freshDumpR st.sess w2.rib w2.phase i⟩
+
+def run01 (c : Case01) : Obs01 :=
+  match c.rtc with
+  | none => run01Plain c
+  | some i => run01R c i
 
 end Rbgp.Export
